@@ -89,6 +89,12 @@ static int c35_name(char *buf)
 	 * concrete, bytes symbolic, so equal and distinct names both occur); arbitrary label
 	 * structures are the subject of harness_labels */
 	for (n = 0; n < C35_N; n++) __CPROVER_assume(buf[n] != 0 && buf[n] != '.');
+#ifdef C35_DISTINCT
+	/* pairwise distinct concrete first letters: no compression can happen, every offset in the
+	 * message is concrete; this isolates the formatter's own logic (header, counts, section order,
+	 * record layout, size limit / TC); compression is the subject of harness_labels */
+	{ static int serial; buf[0] = (char)('a' + serial++); }
+#endif
 	return C35_N;
 #endif
 	n = (int)strlen(buf);
